@@ -2,6 +2,7 @@ package thriftproto
 
 import (
 	"context"
+	"encoding/binary"
 	"sync"
 
 	"git.apache.org/thrift.git/lib/go/thrift"
@@ -210,6 +211,49 @@ func readMessageBegin(tProtocol thrift.TProtocol, m erpc.Message) error {
 // BaseTTransport the base thrift transport
 type BaseTTransport struct {
 	*utils.ReadWriteCounter
+	// reading: the bytes of the current frame still to be delivered, the frame's size
+	// word collected so far, and whether the peer turned out to send unframed messages
+	frameRemain int
+	sizeWord    [4]byte
+	sizeRead    int
+	unframed    bool
+}
+
+// Read never delivers bytes beyond the end of the current frame: the header transport
+// reads through a buffer of its own, and whatever it read ahead was counted as part of
+// the message being unpacked (the reported size then depended on what followed the
+// message on the connection and could exceed the size limit for a small message).
+func (t *BaseTTransport) Read(p []byte) (int, error) {
+	if t.unframed || len(p) == 0 {
+		return t.ReadWriteCounter.Read(p)
+	}
+	if t.frameRemain == 0 {
+		// at a frame boundary: only the 4-byte size word
+		if len(p) > 4-t.sizeRead {
+			p = p[:4-t.sizeRead]
+		}
+		n, err := t.ReadWriteCounter.Read(p)
+		copy(t.sizeWord[t.sizeRead:], p[:n])
+		t.sizeRead += n
+		if t.sizeRead == 4 {
+			t.sizeRead = 0
+			size := binary.BigEndian.Uint32(t.sizeWord[:])
+			if size&thrift.VERSION_MASK == thrift.VERSION_1 ||
+				(t.sizeWord[0] == thrift.COMPACT_PROTOCOL_ID && t.sizeWord[1]&thrift.COMPACT_VERSION_MASK == thrift.COMPACT_VERSION) {
+				// an unframed binary or compact message: its end is not announced
+				t.unframed = true
+			} else if size <= thrift.THeaderMaxFrameSize {
+				t.frameRemain = int(size)
+			}
+		}
+		return n, err
+	}
+	if len(p) > t.frameRemain {
+		p = p[:t.frameRemain]
+	}
+	n, err := t.ReadWriteCounter.Read(p)
+	t.frameRemain -= n
+	return n, err
 }
 
 var _ thrift.TTransport = new(BaseTTransport)
